@@ -128,6 +128,10 @@ def p2_slices(weights, factors, projections):
 
 
 def rel(a, b):
+    a, b = np.asarray(a), np.asarray(b)
+    m = max(float(np.max(np.abs(a))) if a.size else 0.0, float(np.max(np.abs(b))) if b.size else 0.0)
+    if m > 0 and math.isfinite(m):       # overflow / underflow-safe: norms of the arrays divided by their largest entry
+        a, b = a / m, b / m
     nb = np.linalg.norm(b)
     return float(np.linalg.norm(a) / nb) if nb > 0 else float("nan")
 
@@ -1002,9 +1006,10 @@ def driver_configs(tier, seed, algs=None):
             add(alg, shape=[4, 5, 3], rank=2, init="user", init_weights=str(rng.choice(["none", "positive"])), normalize=True, fixed=fx,
                 tol="tiny", caps=[0, 1, 2, 3, 5, 8], **kw)
     # ---- VALUE regimes: tiny / huge overall magnitude (relative errors and structure are scale-free), float32 storage
-    # (magnitudes whose 7th power leaves the double range are outside the domain: the NNDSVDa start of the non-negative
-    #  Tucker routines has factors AND core proportional to the data scale -- scale^(2*order+1) for order 3 -- by design)
-    for sc in (1e-20, 1e-40, 1e30):
+    # (magnitudes whose 14th power leaves the double range are outside the domain: the NNDSVDa start of the non-negative
+    #  Tucker routines has factors AND core proportional to the data scale -- a start of size scale^(2*order+1) for order 3,
+    #  by design -- and every error computation squares it)
+    for sc in (1e-20, 1e-12, 1e20):
         for alg, kw in (("parafac", {"data": "generic", "normalize": True}), ("parafac", {"data": "generic", "linesearch": True, "caps": [0, 1, 2, 6, 7, 8, 9]}),
                         ("nn_parafac", {"data": "nonneg"}), ("nn_parafac_hals", {"data": "nonneg"}),
                         ("tucker", {"data": "generic", "rank": [2, 2, 2]}), ("nn_tucker", {"data": "nonneg", "rank": [2, 2, 2]}),
